@@ -29,3 +29,28 @@ pub fn generate(seed: u64, n: usize, out: &mut Vec<String>) -> String {
 pub fn replay(nums: &[u64]) -> String {
     if nums.len() > 1 && nums[1] == 4 { p32::replay_line(nums) } else { p16::replay_line(nums) }
 }
+
+pub fn generate_parse(seed: u64, n: usize, enum_len: usize, out: &mut Vec<String>) -> String {
+    let mut rng = crate::rng::Rng::new(seed ^ 0xC0_4C_04);
+    let mut s16 = p16::PkStats::default();
+    let mut s32 = p32::PkStats::default();
+    let n32 = n / 5;
+    p16::gen_parse_cases(&mut rng, n - n32, out, &mut s16);
+    p32::gen_parse_cases(&mut rng, n32, out, &mut s32);
+    let before = out.len();
+    p16::enum_parse_cases(enum_len, out, &mut s16);
+    format!(
+        "{{\"mutated_or_random_inputs\":{},\"exhaustive_short_bodies\":{},\"exhaustive_max_body_len\":{},\"parser_accepts\":{},\"parser_rejects\":{},\"panics\":{}}}",
+        before, out.len() - before, enum_len, s16.parse_ok + s32.parse_ok, s16.parse_err + s32.parse_err, s16.panics + s32.panics
+    )
+}
+pub fn replay_parse(nums: &[u64]) -> String {
+    // ver idw fh n body..
+    let n = nums[3] as usize;
+    let body: Vec<u8> = nums[4..4 + n].iter().map(|x| *x as u8).collect();
+    if nums[1] == 4 {
+        p32::parse_case(nums[0], nums[2] as u8, &body, &mut p32::PkStats::default())
+    } else {
+        p16::parse_case(nums[0], nums[2] as u8, &body, &mut p16::PkStats::default())
+    }
+}
